@@ -27,10 +27,18 @@ type Cfg struct {
 	UDP     bool `json:"udp"`
 	Mcast   bool `json:"mcast"`
 	NMedias int  `json:"nmedias"`
+	IdleMs  int  `json:"idle_ms,omitempty"` // IdleTimeout in ms; 0 = the library default (60 s)
+}
+
+func (c Cfg) idleMs() int {
+	if c.IdleMs == 0 {
+		return 60000
+	}
+	return c.IdleMs
 }
 
 func (c Cfg) initOp() string {
-	return fmt.Sprintf("sess init %d %s %s %d", c.Mask, b01(c.UDP), b01(c.Mcast), c.NMedias)
+	return fmt.Sprintf("sess init %d %s %s %d %d", c.Mask, b01(c.UDP), b01(c.Mcast), c.NMedias, c.idleMs())
 }
 
 func b01(b bool) string {
@@ -68,6 +76,7 @@ type instance struct {
 	extraResp  string          // set when a response arrived that no request asked for
 	timeoutCfg *timeoutCfg
 	nCases     int
+	stuck      bool // a server routine hangs: do not wait for this instance any more
 }
 
 type timeoutCfg struct {
@@ -92,6 +101,9 @@ func newInstance(cfg Cfg, tc *timeoutCfg) (*instance, error) {
 		s := &gortsplib.Server{
 			Handler:     newHandler(cfg.Mask, in.core),
 			RTSPAddress: "127.0.0.1:0",
+		}
+		if cfg.IdleMs != 0 {
+			s.IdleTimeout = time.Duration(cfg.IdleMs) * time.Millisecond
 		}
 		if tc != nil {
 			s.IdleTimeout = tc.idle
@@ -140,8 +152,17 @@ func (in *instance) close() {
 	for _, cl := range in.clients {
 		cl.nc.Close()
 	}
-	in.stream.Close()
-	in.srv.Close()
+	done := make(chan struct{})
+	go func() {
+		in.stream.Close()
+		in.srv.Close()
+		close(done)
+	}()
+	select {
+	case <-done:
+	case <-time.After(2 * watchdog):
+		// a routine of the server hangs (reported as a violation already): leave it behind
+	}
 }
 
 // liveSessions returns the records of the sessions of the current case that are not closed.
@@ -161,16 +182,29 @@ func (in *instance) liveSessions() []*sessRec {
 // ending are awaited until OnSessionClose was called.
 func (in *instance) settle() {
 	for _, r := range in.liveSessions() {
-		if r.ss.VerifBarrier() {
-			if !in.core.waitFor(watchdog, func() bool { return r.closeCount > 0 }) {
+		done := make(chan bool, 1)
+		go func() { done <- r.ss.VerifBarrier() }()
+		select {
+		case ending := <-done:
+			if ending && !in.core.waitFor(watchdog, func() bool { return r.closeCount > 0 }) {
 				in.hang = fmt.Sprintf("session %d is ending but OnSessionClose was not called within %v", r.idx-in.sessBase, watchdog)
+				in.stuck = true
 			}
+		case <-time.After(watchdog):
+			in.hang = fmt.Sprintf("the routine of session %d did not take an event within %v", r.idx-in.sessBase, watchdog)
+			in.stuck = true
+		}
+		if in.stuck {
+			return
 		}
 	}
 }
 
 // reset brings the instance back to "no connections, no sessions" between cases.
 func (in *instance) reset() {
+	if in.stuck {
+		return
+	}
 	for _, cl := range in.clients {
 		cl.nc.Close()
 	}
@@ -659,6 +693,11 @@ func (in *instance) doReq(r Req) (ReqResult, error) {
 			for _, rec := range in.core.sessions[in.sessBase:] {
 				if rec.id == sh.Session {
 					out.SessHdr = strconv.Itoa(rec.idx - in.sessBase)
+					if sh.Timeout != nil {
+						out.SessHdr += ":" + strconv.FormatUint(uint64(*sh.Timeout), 10)
+					} else {
+						out.SessHdr += ":none"
+					}
 				}
 			}
 			in.core.mu.Unlock()
